@@ -992,3 +992,90 @@ def falsify_C07(ctx):
     return {"cases": len(ops), "nontrivial": len(nontrivial),
             "rule": "random ROS 2 workloads (all callback kinds, priorities, singleton and multi-callback subchains, all supplies incl. the default service_time) with limits <= 70: real result vs the executable naive Spec (every offset, linear-scan fixed points, service_time by linear scan); non-trivial = distinct op with a positive naive bound",
             "counterexamples": cex, "samples": samples, "distribution": dist}
+
+
+# ---------------------------------------------------------------------------
+# C18: tightness — the critical-instant schedule attains the bound
+
+def critical_jobs(T, J, C, horizon, t0):
+    """critical-instant releases of a sporadic task aligned at t0 (>= J): arrivals k*T from
+    t0 - J, every job released as late as allowed but not before t0"""
+    jobs = []
+    k = 0
+    while True:
+        rel = max(k * T, J) + (t0 - J)
+        if rel > t0 + horizon:
+            break
+        jobs.append((rel, C))
+        k += 1
+    return jobs
+
+
+def falsify_C18(ctx):
+    rng = random.Random(ctx["seed"] * 7919 + 18)
+    n = 300 if ctx["tier"] == "quick" else 20000
+    cex, samples, nontrivial = [], [], set()
+    dist = {"fifo": 0, "fp_p": 0, "fp_np": 0, "attained": 0}
+    for it in range(n):
+        k = wchoice(rng, [(2, 1), (3, 2), (3, 3), (1, 4)])
+        tasks = []
+        for _ in range(k):
+            T = rng.randint(3, 30)
+            tasks.append({"T": T, "J": wchoice(rng, [(2, 0), (2, rng.randint(0, T)), (1, rng.randint(T, 2 * T))]), "C": rng.randint(1, 5)})
+        kind = wchoice(rng, [(2, "fifo"), (2, "fp_p"), (2, "fp_np")])
+        dist[kind] += 1
+        i = rng.randrange(k)
+        t0 = max(t["J"] for t in tasks) + 1
+        if kind == "fifo":
+            op = f"fifo ragg {k}" + "".join(f" rbf spo {t['T']} {t['J']} sc {t['C']}" for t in tasks) + " 5000"
+        elif kind == "fp_p":
+            hp = tasks[:i]
+            op = f"fp_p rbf spo {tasks[i]['T']} {tasks[i]['J']} sc {tasks[i]['C']} {len(hp)}" + \
+                "".join(f" rbf spo {t['T']} {t['J']} sc {t['C']}" for t in hp) + " 5000"
+        else:
+            hp, lp = tasks[:i], tasks[i + 1:]
+            B = max([t["C"] - 1 for t in lp], default=0)
+            op = f"fp_np spo {tasks[i]['T']} {tasks[i]['J']} {tasks[i]['C']} {B} {len(hp)}" + \
+                "".join(f" rbf spo {t['T']} {t['J']} sc {t['C']}" for t in hp) + " 5000"
+        r = real([op])[0]
+        if not r.startswith("ok "):
+            continue
+        R = int(r.split()[1])
+        if R == 0:
+            continue
+        horizon = 4 * R + 60
+        jobs = []
+        for ti, t in enumerate(tasks):
+            if kind != "fifo" and ti > i:
+                # lower-priority tasks: for NP the longest one starts one tick before t0
+                if kind == "fp_np" and t["C"] - 1 == max([x["C"] - 1 for x in tasks[i + 1:]], default=0) and t["C"] > 1 \
+                        and not any(j["task"] > i for j in jobs):
+                    jobs.append({"rel": t0 - 1, "cost": t["C"], "np": set(range(1, t["C"])), "task": ti})
+                continue
+            for rel, c in critical_jobs(t["T"], t["J"], t["C"], horizon, t0):
+                npset = set(range(1, c)) if kind == "fp_np" else set()
+                jobs.append({"rel": rel, "cost": c, "np": npset, "task": ti})
+        jobs.sort(key=lambda j: (j["task"], j["rel"]))
+        for idx, j in enumerate(jobs):
+            j["idx"] = idx
+        key = (lambda j: j["rel"]) if kind == "fifo" else (lambda j: (j["task"], j["idx"]))
+        best = 0
+        for rep in range(3 if kind == "fifo" else 1):
+            rts = sim.simulate(jobs, key, rng, horizon=t0 + 3 * horizon)
+            for j, rt in zip(jobs, rts):
+                if rt is None or j["rel"] > t0 + R + 5:
+                    continue
+                if kind == "fifo" or j["task"] == i:
+                    if rt > R:
+                        cex.append({"kind": "bound_exceeded_in_tightness_witness", "op": op, "impl": r, "observed_response": rt})
+                    best = max(best, rt)
+        nontrivial.add(op)
+        if best == R:
+            dist["attained"] += 1
+            if len(samples) < 4 and k >= 2:
+                samples.append({"op": op, "bound": R, "witness": "critical-instant schedule", "witnessed_response": best})
+        else:
+            cex.append({"kind": "bound_not_attained", "op": op, "impl": r, "best_witnessed_response": best, "analysis": kind})
+    return {"cases": sum(dist[k2] for k2 in ("fifo", "fp_p", "fp_np")), "nontrivial": len(nontrivial),
+            "rule": "random sporadic task sets with release jitter: the critical-instant job set (all tasks aligned, every job at its WCET; for NP-FP a longest lower-priority job started one tick earlier) is scheduled by the executable scheduler model and the largest response time of the analysed task (FIFO: of any task) is compared with the real bound: equality expected; non-trivial = distinct system with a positive bound",
+            "counterexamples": cex, "samples": samples, "distribution": dist}
